@@ -10,7 +10,7 @@ PROP = 'C15'
 MODEL_OPS = 'Misc.convert (family + exact scale factor)'
 RULE = ('read order nu or wav (drawn per case); all 5x5 stored/requested pairs of {mJy, Jy, erg cm-2 s-1, erg s-1, W m-2}, 1-5 apertures, distances over 6 decades, random frequency grids (2-12 points, either order); '
         'per pair: read in the requested unit (vs the model), write that SED and read it back in the stored unit (A->B->A) and in a third unit (A->B->C vs A->C); '
-        'an unsupported requested unit must be refused. quick: 25 pairs x 8; thorough: 25 x 200. non-trivial = stored and requested units differ.')
+        'an unsupported requested unit must be refused; a twin SED (same units, distance, length and end frequencies, other interior frequencies) is read afterwards in the same process. quick: 25 pairs x 8; thorough: 25 x 200. non-trivial = stored and requested units differ.')
 EXHAUSTIVE = {'quick': True, 'thorough': True}
 ASSUMPTIONS = ['unit scale factors are exact rationals (mJy = 1e-26, Jy = 1e-23 erg cm-2 s-1 Hz-1; W m-2 = 1e3 erg cm-2 s-1); distance in cm from astropy\'s kpc (oracle value taken from the implementation)',
                'float rounding: relative tolerance 1e-12']
@@ -30,7 +30,12 @@ def generate(tier, seed):
                 nw = rng.randint(2, 12)
                 nu = sorted(set(rng.dyadic(1.0, 16.0, 10) * 2.0 ** rng.choice([38, 42, 46]) for _ in range(nw)))
                 nap = rng.randint(1, 5)
-                cases.append(dict(stored=a, requested=b, third=rng.choice(names), nu=nu, order=rng.choice(['incr', 'decr']),
+                twin = None
+                if len(nu) >= 3:
+                    mid = sorted(set(x for x in (rng.dyadic(nu[0], nu[-1], 12) for _ in range(4 * len(nu))) if nu[0] < x < nu[-1] and x not in nu))[:len(nu) - 2]
+                    if len(mid) == len(nu) - 2:
+                        twin = [nu[0]] + mid + [nu[-1]]
+                cases.append(dict(twin_nu=twin, stored=a, requested=b, third=rng.choice(names), nu=nu, order=rng.choice(['incr', 'decr']),
                                   flux=[[rng.logdyadic(1e-3, 1e3, 10) for _ in nu] for _ in range(nap)], dist_kpc=rng.logdyadic(1e-3, 1e3, 8),
                                   bad=rng.choice(['K', 'm', 'Hz', 'kg']) if r == 0 else None, read_order=rng.choice(['nu', 'wav'])))
     return cases
@@ -66,6 +71,20 @@ def impl(case):
         _, out['ABC'] = rd(q, case['third'])
         _, out['AC'] = rd(p, case['third'])
         _, out['AA'] = rd(p, case['stored'])
+        # a second SED read afterwards in the same process: same units, distance, length and end frequencies, other interior frequencies
+        if case.get('twin_nu'):
+            t = SED()
+            t.name = 'twin'
+            t.distance = s.distance
+            tn = case['twin_nu'] if o == 'incr' else list(reversed(case['twin_nu']))
+            t.nu = np.array(tn) * u.Hz
+            t.wav = t.nu.to(u.micron, equivalencies=u.spectral())
+            t.apertures = s.apertures
+            t.flux = s.flux
+            t.error = s.error
+            pt = os.path.join(d, 't_sed.fits')
+            t.write(pt)
+            _, out['twin'] = rd(pt, case['requested'])
         if case['bad']:
             try:
                 SED.read(p, unit_flux=u.Unit(case['bad']))
@@ -130,6 +149,23 @@ def judge(case, im, mo):
                 break
         if fail:
             break
+    if im.get('twin') and case.get('twin_nu'):
+        T = im['twin']
+        tnu = sorted(case['twin_nu'])
+        done = False
+        for j, v in enumerate(tnu):
+            k = min(range(len(T['nu'])), key=lambda t: abs(T['nu'][t] - v))
+            for a, row in enumerate(case['flux']):
+                x = F(row[j]) * ka
+                base = x * F(v) if fa == 'Fnu' else (x if fa == 'Fint' else x / (d * d))
+                want = (base / F(v) if fb == 'Fnu' else (base if fb == 'Fint' else base * d * d)) / kb
+                if abs(F(T['flux'][a][k]) - want) > Fraction(1, 10 ** 11) * abs(want):
+                    fail.append('history: a second SED (same units, distance, length and end frequencies, other interior frequencies) read after the first: %r %s at nu=%r read as %r %s; the relations give %r'
+                                % (row[j], case['stored'], v, T['flux'][a][k], case['requested'], float(want)))
+                    done = True
+                    break
+            if done:
+                break
     if not _same(im['ABA']['flux'], im['AA']['flux'], 1e-11) or not _same(im['ABA']['error'], im['AA']['error'], 1e-11):
         fail.append('roundtrip: %s -> %s -> %s is not the identity' % (case['stored'], case['requested'], case['stored']))
     if not _same(im['ABC']['flux'], im['AC']['flux'], 1e-11):
